@@ -2,9 +2,14 @@ package main
 
 import (
 	"bytes"
+	"encoding/base64"
+	"encoding/hex"
 	"fmt"
 	"os"
+	"path/filepath"
+	"regexp"
 	"runtime"
+	"sort"
 	"strings"
 
 	"github.com/tonkeeper/tongo/boc"
@@ -171,4 +176,82 @@ func withBoc(m map[string]h.ExecFn) map[string]h.ExecFn {
 		m[k] = v
 	}
 	return withCells(m)
+}
+
+var reHexBoc = regexp.MustCompile(`(?i)b5ee9c72[0-9a-f]{8,}`)
+var reB64Boc = regexp.MustCompile(`te6cc[A-Za-z0-9+/]{6,}={0,2}`)
+
+// repoBocs collects every byte string in the repository under test that looks like a bag of cells (hex or base64,
+// in testdata files and in string constants) and that the parser accepts.
+func repoBocs() [][]byte {
+	root := os.Getenv("VERIF_REPO")
+	if root == "" {
+		root = "/repo"
+	}
+	seen := map[string]bool{}
+	var out [][]byte
+	filepath.Walk(root, func(path string, info os.FileInfo, err error) error {
+		if err != nil {
+			return nil
+		}
+		if info.IsDir() {
+			if info.Name() == ".git" {
+				return filepath.SkipDir
+			}
+			return nil
+		}
+		if info.Size() > 8<<20 {
+			return nil
+		}
+		data, err := os.ReadFile(path)
+		if err != nil {
+			return nil
+		}
+		try := func(bs []byte) {
+			if len(bs) < 10 || seen[string(bs)] {
+				return
+			}
+			ok := false
+			safely(func() {
+				cs, err := boc.DeserializeBoc(bs)
+				ok = err == nil && len(cs) >= 1
+			})
+			if ok {
+				seen[string(bs)] = true
+				out = append(out, bs)
+			}
+		}
+		for _, m := range reHexBoc.FindAll(data, -1) {
+			if len(m)%2 == 1 {
+				m = m[:len(m)-1]
+			}
+			if bs, err := hex.DecodeString(string(m)); err == nil {
+				try(bs)
+			}
+		}
+		for _, m := range reB64Boc.FindAll(data, -1) {
+			if bs, err := base64.StdEncoding.DecodeString(string(m)); err == nil {
+				try(bs)
+			}
+		}
+		return nil
+	})
+	sort.Slice(out, func(i, j int) bool {
+		if len(out[i]) != len(out[j]) {
+			return len(out[i]) < len(out[j])
+		}
+		return bytes.Compare(out[i], out[j]) < 0
+	})
+	return out
+}
+
+// repoSeedBocs: the repository's bags of cells up to 64 KiB, smallest first.
+func repoSeedBocs() [][]byte {
+	var out [][]byte
+	for _, b := range repoBocs() {
+		if len(b) <= 65536 {
+			out = append(out, b)
+		}
+	}
+	return out
 }
